@@ -297,6 +297,25 @@ fn replay(beh: &Value, input: &str, cap: usize, ents: &[(String, usize)], fin: &
             }
         }
     }
+    // a thread the model leaves waiting for a continue stands in front of its park(): let it go in - it must stay
+    // there (sampled after a grace period; a spurious return of park would be reported here, see the assumptions)
+    if problem.is_none() && beh["expect_stuck"] != true {
+        if let Some(parked) = beh["parked"].as_array() {
+            for (gi, p) in parked.iter().enumerate() {
+                if p != true {
+                    continue;
+                }
+                let key = format!("par{}", gi + 1);
+                if gates.wait_any(&key, t5) == Some("Park") {
+                    gates.release(&key);
+                    thread::sleep(Duration::from_millis(150));
+                    if let Some(n) = gates.wait_any(&key, Duration::from_millis(1)) {
+                        problem = Some(json!({"step": "end", "why": format!("parser thread {key} waits for a continue in the model, the real thread went on to {n} without one")}));
+                    }
+                }
+            }
+        }
+    }
     // final observations: what is left in the channels must be what the model has there
     let mut verdict = json!({"ok": problem.is_none(), "problem": problem, "stuck_confirmed": Value::Null});
     if verdict["ok"] == true && beh["expect_stuck"] != true {
